@@ -63,4 +63,12 @@ inductive UpgradeGuard
   | checkAuthBefore | commonTOTPBefore | viaParams | none
 deriving DecidableEq, Repr
 
+/-- what one arm of the `switch protectedData.CodeChallengeMethod` returns -/
+inductive PkceResult
+  | verifierEqChallenge    -- codeVerifier == protectedData.CodeChallenge
+  | s256EqChallenge        -- base64url(sha256(codeVerifier)) == protectedData.CodeChallenge
+  | alwaysFalse
+  | unknown
+deriving DecidableEq, Repr
+
 end KM.Token
